@@ -67,6 +67,8 @@ func PayByEphemeralAccount(account Account, amount types.Currency, expiry uint64
 func PayByContract(rev *types.FileContractRevision, amount types.Currency, refundAcct Account, sk types.PrivateKey) (PayByContractRequest, bool) {
 	if rev.ValidRenterPayout().Cmp(amount) < 0 || rev.MissedRenterPayout().Cmp(amount) < 0 {
 		return PayByContractRequest{}, false
+	} else if rev.RevisionNumber == types.MaxRevisionNumber {
+		return PayByContractRequest{}, false // no further revisions are possible
 	}
 	rev.ValidProofOutputs[types.RenterContractIndex].Value = rev.ValidProofOutputs[types.RenterContractIndex].Value.Sub(amount)
 	rev.ValidProofOutputs[types.HostContractIndex].Value = rev.ValidProofOutputs[types.HostContractIndex].Value.Add(amount)
